@@ -22,30 +22,29 @@ READY = True
 DRIVER = "dm_graph"
 LEAN_MODULES = ["DaskModel.Props.C08"]
 TABLES = ["TaskSpecSlots"]
-LEVEL_TEXT = ("Lean 4 theorems over a transliteration of convert_legacy_task/convert_legacy_graph, Task.__call__/_eval, "
+LEVEL_TEXT = ("FULL. Lean 4 theorems over a transliteration of convert_legacy_task/convert_legacy_graph, Task.__call__/_eval, "
               "NestedContainer evaluation, execute_graph as it runs, and the statement's legacy semantics, with user functions "
-              "uninterpreted. PROVED for all objects/graphs/environments: convert_preserves_eval_partial + "
-              "convertGraph_preserves_eval_partial (conversion + execution = legacy value whenever no element of a non-task, "
-              "non-key tuple needs evaluation: hypothesis `clean`; dict values are evaluated at any depth since the fix ca6daad), "
-              "deps_exact (a node's dependencies are sufficient and each is necessary for its evaluation, through nested "
-              "containers/kwargs), deps_exact_legacy_partial (clean => node.dependencies = get_dependencies, same list), "
-              "execute_graph_operational (the cache filled in an order with dependencies first -- what order() returns, C06 -- "
-              "with refcount[dep] -= 1 / del cache[dep]: everything in the returned cache is the denotational value of its key, "
-              "every key that may not be deleted is in it, and if every key has a value the run never fails: no node finds a "
-              "dependency already deleted, no del hits a missing key). The statement at full strength is REFUTED for the code as "
-              "it is by one witness that replays on /repo (known finding): non-task tuples are evaluated elementwise; the same "
-              "witness separates node.dependencies from get_dependencies. Pickling: task_pickle_roundtrip / "
-              "container_pickle_roundtrip (slot lists extracted from the AST on every run; every slot, in particular "
-              "_dependencies/func/args/kwargs, is restored; the dropped `constructor` kwarg is restored from the class), "
-              "alias_pickle_roundtrip; Alias(key, target) keeps an explicit target whatever its truth value (aliasInit). "
-              "VALIDATED ONLY: namedtuples, futures, sets/frozensets in legacy graphs; that order() is a valid order is C06.")
+              "uninterpreted. PROVED for all objects/graphs/key sets/environments: convert_preserves_eval (evaluating the "
+              "converted node = the legacy value: calls, lists and dicts elementwise at any depth, keys are references, "
+              "everything else incl. non-task tuples is a literal; only hypothesis: dict keys hashable and distinct) and "
+              "convertGraph_preserves_eval (graph level, any cache, any depth); deps_exact (a node's dependencies are sufficient "
+              "and each is necessary for its evaluation, through nested containers/kwargs) and deps_exact_legacy "
+              "(node.dependencies = get_dependencies, same list, for every object); execute_graph_operational (the cache filled "
+              "in an order with dependencies first -- what order() returns, C06 -- with refcount[dep] -= 1 / del cache[dep]: "
+              "everything in the returned cache is the denotational value of its key, every key that may not be deleted is in "
+              "it, and if every key has a value the run never fails); task_pickle_roundtrip / container_pickle_roundtrip (slot "
+              "lists re-extracted from the AST on every run), alias_pickle_roundtrip. The two refutations of the builder's "
+              "round are gone: the code was repaired (ca6daad/7bc9664: dict values; 83e63e1: non-task tuples and sets are "
+              "literals), the former witnesses are positive examples. VALIDATED ONLY: namedtuples and futures in legacy graphs "
+              "(not generated); that order() is a valid order is C06.")
 LEVEL_NOTE = ("Trusted: Lean kernel + standard axioms; the hand transliteration, tied on every run by (a) structural diff of the "
               "real converted graph against the model's, (b) dask.core.get vs the model's coreGet on every key, (c) the legacy "
               "semantics computed by Lean and by an independent Python interpreter, (d) node.dependencies / get_dependencies vs "
               "the model, (e) task-spec object graphs through node(values) and execute_graph, incl. the whole returned cache "
               "after reference-count deletions for several `keys` arguments against the operational model (nodes listed in the "
               "real order()), (f) real pickle round trips. Fixed in /repo: dask.core.get rejected single int/tuple keys (5af6762); "
-              "dict values of legacy tasks were dependencies but were neither evaluated nor substituted (ca6daad).")
+              "dict values of legacy tasks were dependencies but were neither evaluated nor substituted (ca6daad, 7bc9664); "
+              "non-task tuples/sets were evaluated elementwise although nothing else treats them as part of the graph (83e63e1).")
 TECHNIQUE = "Lean 4 proof (mutual structural induction over legacy terms / task nodes; loop invariant with reference counts) + differential correspondence"
 ASSUMPTIONS = ["user functions are pure and total; they are left uninterpreted (free term algebra), so equality of the symbolic "
                "results implies equality under every interpretation",
@@ -55,22 +54,11 @@ ASSUMPTIONS = ["user functions are pure and total; they are left uninterpreted (
                "the caller's cache holds no key of the graph (dask.core.get passes none)"]
 CASE_TIMEOUT_S = 10
 
-SIG_D2 = "legacy:non-task-tuple-with-reference-or-call:evaluated-elementwise"
-
-
 def _outcome(fn):
     try:
         return [Sym("ok"), to_sexp(fn())]
     except Exception:
         return [Sym("raised")]
-
-
-def _classify(dsk, key, impl_v):
-    """Does the known divergence from the statement's semantics (non-task tuples are evaluated elementwise) explain the
-    real outcome `impl_v` (a value or a raise, e.g. a cycle that exists only under that traversal)?  None if not."""
-    if _outcome(lambda: ref_eval(dsk, key, True, True)) == impl_v:
-        return SIG_D2
-    return None
 
 
 def _ok(v):
@@ -98,10 +86,9 @@ def case_legacy(ctx, inp):
     for kd in kinds:
         ctx.branch("node-" + kd)
     # (2) values.  A graph is compared against the statement only if it has a meaning at all: every key must
-    # evaluate under the statement's traversal and under the code's (no cycle through either); otherwise only the
-    # model/implementation diff is made.
+    # evaluate under the statement's traversal (no cycle); otherwise only the model/implementation diff is made.
     wellformed = all(_outcome(lambda k=build(kj), f=f: ref_eval(dsk, k, *f))[0] == "ok"
-                     for kj, _ in items for f in ((True, False), (True, True)))
+                     for kj, _ in items for f in ((True, False),))
     if not wellformed:
         ctx.branch("ill-formed-cyclic")
     for (kj, _), ks in zip(items, keys_s):
@@ -123,7 +110,7 @@ def case_legacy(ctx, inp):
             want_s = [Sym("raised")]
         ctx.eq("statement semantics: Lean evalKeyL vs Python reference", ml, want_s)
         if wellformed and impl_v != want_s:
-            sig = _classify(dsk, k, impl_v)
+            sig = None           # no known divergence is left: every difference from the statement is a fresh failure
             what = ("dask.core.get raised (" + exc + ") although the legacy semantics gives a value" if impl_v[0] == "raised"
                     else "dask.core.get returned although the legacy semantics raises (cycle)" if want_s[0] == "raised"
                     else "dask.core.get differs from the legacy semantics of the statement")
@@ -144,7 +131,7 @@ def case_legacy(ctx, inp):
         md = ctx.lean(Sym("deps"), node_sexp(n))
         ctx.eq("node.dependencies", sorted(set(json.dumps(x, default=str) for x in md)),
                sorted(json.dumps(to_sexp(x), default=str) for x in n.dependencies))
-        refs = legacy_refs(dsk, dsk[k], True, True)
+        refs = legacy_refs(dsk, dsk[k], True, False)
         if set(n.dependencies) != refs and type(n).__name__ != "DataNode":
             ctx.fail("converted node's dependencies are not the keys it references", observed=sorted(map(repr, n.dependencies)),
                      expected=sorted(map(repr, refs)))
